@@ -542,16 +542,23 @@ func (e *Engine) loopHeaders(fn *ssa.Function) map[*ssa.BasicBlock]int {
 	pos := func(b *ssa.BasicBlock) token.Pos {
 		p := token.Pos(1 << 60)
 		// the loop statement position: smallest position in the header or its body entry
-		for _, ins := range b.Instrs {
+		// (phis and debug references carry the position of the variable's declaration, which may
+		// precede the loop: they do not count)
+		at := func(ins ssa.Instruction) {
+			switch ins.(type) {
+			case *ssa.Phi, *ssa.DebugRef:
+				return
+			}
 			if ins.Pos().IsValid() && ins.Pos() < p {
 				p = ins.Pos()
 			}
 		}
+		for _, ins := range b.Instrs {
+			at(ins)
+		}
 		for _, s := range b.Succs {
 			for _, ins := range s.Instrs {
-				if ins.Pos().IsValid() && ins.Pos() < p {
-					p = ins.Pos()
-				}
+				at(ins)
 			}
 		}
 		return p
